@@ -25,6 +25,9 @@ TRANSLATOR_PARTS += ["trmatch"]
 # (translate/melody.py -> lean/MirGen/Melody.lean); Props/C04_GenMelody.lean proves the generated definitions equal to the
 # hand-written melody model for all inputs; suite `gen_melody` runs them (driver op `gen.melody`) against the real functions
 TRANSLATOR_PARTS += ["melody"]
+# transcription.average_overlap_ratio and transcription_velocity.match_notes / precision_recall_f1_overlap are REGENERATED
+# (translate/trvel.py -> lean/MirGen/TrVel.lean); Props/C04_GenTrVel.lean proves them equal to the hand model; suite gen_trvel
+TRANSLATOR_PARTS += ["trvel"]
 _here = os.path.dirname(os.path.abspath(__file__))
 _props = os.path.join(os.path.dirname(os.path.dirname(_here)), "lean", "MirProofs", "Props")
 LEAN_MODULES = sorted("MirProofs.Props." + os.path.basename(f)[:-5]
@@ -362,6 +365,104 @@ def _suite_gen_melody(rng, tier, shard, nshards):
 
 
 SUITES["gen_melody"] = suite_gen_melody
+
+
+# ------------------------------------------------------------------------------------------------
+# suite gen_trvel: the GENERATED average_overlap_ratio / velocity-aware definitions (lean/MirGen/TrVel.lean, driver op
+# `gen.trvel`) vs the real functions, and the run-time primitives (`pytv.*`, lean/MirModel/PyTrVel.lean) vs NumPy
+
+def _tv_available():
+    import core
+    import proto
+    try:
+        outs = core.run_driver(["0 gen.trvel %s\n" % proto.enc("?")])
+        v = proto.dec_line(outs[0])[1]
+    except Exception:  # noqa: BLE001
+        return set()
+    return set(v) if isinstance(v, list) else set()
+
+
+def _tv_prim_cases(rng, tier):
+    import numpy as np
+    Fr = _Fr
+    vals = [Fr(0), Fr(1), Fr(1, 2), Fr(-3, 4), Fr(100), Fr(5, 4), Fr(64), Fr(127)]
+
+    def arr(x):
+        return np.array([float(v) for v in x], dtype=float)
+    for _ in range(40 if tier == "quick" else 600):
+        n = rng.choice([0, 1, 1, 2, 3, 5])
+        a = [rng.choice(vals) for _ in range(n)]
+        b = [rng.choice(vals) for _ in range(rng.choice([n, n, n, 0, 1, n + 1]))]
+        c = rng.choice(vals)
+        cn = rng.choice([v for v in vals if v != 0])
+        info = {"op": "pytv", "a": [str(x) for x in a], "b": [str(x) for x in b], "c": str(c)}
+        tag = "prim n=%d" % min(n, 2)
+        yield Case("pytv.amin", [a], lambda a=a: np.min(arr(a)), tag=tag, info=info)
+        yield Case("pytv.amax", [a], lambda a=a: np.max(arr(a)), tag=tag, info=info)
+        yield Case("pytv.max2", [c, cn], lambda c=c, cn=cn: max(float(c), np.float64(float(cn))), tag=tag, info=info)
+        yield Case("pytv.min2", [c, cn], lambda c=c, cn=cn: min(np.float64(float(c)), np.float64(float(cn))), tag=tag, info=info)
+        yield Case("pytv.max2", [Fr(1), c], lambda c=c: max(1, np.float64(float(c))), tag=tag, info=info)
+        yield Case("pytv.subVS", [a, c], lambda a=a, c=c: arr(a) - float(c), tag=tag, info=info)
+        yield Case("pytv.addVS", [a, c], lambda a=a, c=c: arr(a) + float(c), tag=tag, info=info)
+        yield Case("pytv.divVS", [a, cn], lambda a=a, cn=cn: arr(a) / float(cn), tag=tag, info=info)
+        if len(b) == len(a) or (len(a) > 1 and len(b) > 1) or (len(b) == 0) != (len(a) == 0) and 1 not in (len(a), len(b)):
+            yield Case("pytv.subVV", [a, b], lambda a=a, b=b: arr(a) - arr(b), tag=tag + (" eq" if len(a) == len(b) else " ne"), info=info)
+        yield Case("pytv.absV", [a], lambda a=a: np.abs(arr(a)), tag=tag, info=info)
+        yield Case("pytv.ltVS", [a, c], lambda a=a, c=c: arr(a) < float(c), tag=tag, info=info)
+        yield Case("pytv.leVS", [a, c], lambda a=a, c=c: arr(a) <= float(c), tag=tag, info=info)
+        k = rng.choice([0, 1, 2, 4])
+        m = [[rng.randrange(4), rng.randrange(4)] for _ in range(k)]
+        mt = [tuple(x) for x in m]
+        yield Case("pytv.pairsSize", [m], lambda mt=mt: int(np.array(mt).size), tag=tag, info=dict(info, m=m))
+        if k:
+            yield Case("pytv.pcol0", [m], lambda mt=mt: [int(x) for x in np.array(mt)[:, 0]], tag=tag, info=dict(info, m=m))
+            yield Case("pytv.pcol1", [m], lambda mt=mt: [int(x) for x in np.array(mt)[:, 1]], tag=tag, info=dict(info, m=m))
+            idx = [x[0] for x in m]
+            yield Case("pytv.take", [a, idx], lambda a=a, idx=idx: arr(a)[np.array(idx)], tag=tag, info=dict(info, idx=idx))
+            mask = [rng.random() < 0.5 for _ in range(rng.choice([k, k, k, k + 1, max(k - 1, 0)]))]
+            yield Case("pytv.maskPairs", [m, mask],
+                       lambda mt=mt, mask=mask: [[int(x), int(y)] for x, y in np.array(mt)[np.array(mask, dtype=bool)]],
+                       tag=tag + (" eq" if len(mask) == k else " ne"), info=dict(info, m=m, mask=mask))
+        iv = [[Fr(i), Fr(i) + Fr(1, 2)] for i in range(n)]
+        i = rng.randrange(n + 2)
+        yield Case("pytv.row", [iv, i], lambda iv=iv, i=i: np.array([[float(x) for x in r] for r in iv]).reshape(-1, 2)[i],
+                   tag=tag, info=dict(info, i=i))
+        if n:
+            yield Case("pytv.mean", [a], lambda a=a: np.mean([np.float64(float(x)) for x in a]), tag=tag, info=info, tol=1e-9)
+            ys = [Fr(rng.randint(0, 64), 64) for _ in range(n)]
+            xs = [Fr(int(x)) for x in a] if rng.random() < 0.7 else [Fr(int(a[0]))] * n
+
+            def lst(xs=xs, ys=ys):
+                A = np.vstack([arr(xs), np.ones(len(xs))]).T
+                return np.linalg.lstsq(A, arr(ys), rcond=None)[0]
+            yield Case("pytv.lstsqLine", [xs, ys], lst, tol=1e-7, tag="prim lstsq rank=%d" % (1 if len(set(xs)) == 1 else 2),
+                       info={"op": "pytv.lstsqLine", "xs": [str(x) for x in xs], "ys": [str(y) for y in ys]})
+
+
+def suite_gen_trvel(rng, tier, shard, nshards):
+    """the translated definitions vs the real functions: average_overlap_ratio on arbitrary index pairs (IndexError, empty),
+    transcription_velocity.match_notes / precision_recall_f1_overlap on the velocity stream (constant velocities, range 0 / 1,
+    tolerance coincidences excluded by the margin rule) and on faulty inputs; the primitives of PyTrVel.lean vs NumPy.
+    Only functions translated on THIS run are asked for (`gen.trvel "?"`)."""
+    from suites import transcription as TRS
+    avail = _tv_available()
+
+    def retarget(c):
+        fn = c.op
+        info = dict(c.info, op="gen.trvel", fn=fn) if isinstance(c.info, dict) else {"op": "gen.trvel", "fn": fn}
+        return Case("gen.trvel", [fn] + list(c.args), c.call, tol=c.tol, tag="gen " + (c.tag or fn), info=info,
+                    nontrivial=c.nontrivial, post=c.post)
+    ops = ("transcription.average_overlap_ratio", "transcription_velocity.match_notes",
+           "transcription_velocity.precision_recall_f1_overlap")
+    for key in ("transcription.average_overlap_ratio", "transcription_velocity.scores", "transcription_velocity.validate"):
+        for c in TRS.SUITES[key](rng, tier, shard, nshards):
+            if c.op in ops and c.op in avail and not any(isinstance(a, list) and any(x is None for x in a) for a in c.args):
+                yield retarget(c)
+    for c in _tv_prim_cases(rng, tier):
+        yield c
+
+
+SUITES["gen_trvel"] = suite_gen_trvel
 
 CHECKERS = {"documented_defaults": check_defaults}
 ORACLES = {"documented_defaults": gen_defaults}
